@@ -40,7 +40,7 @@ PROPS = {
             "coldpath": (None, ALL, "crash"),
             "select": (None, ALL, "crash"),
             "step": (None, ALL, "crash"),
-            "equality": [(["Executor::handle_equal"], ALL), (None, ("safety",))],
+            "equality": [(["Executor::handle_equal"], ALL, "crash"), (None, ("safety",))],
             "transfer": (None, ("safety",)),
             "builtins_binary": (None, ("safety",)),
             "builtins_integer": (None, ("safety",)),
@@ -86,7 +86,7 @@ PROPS = {
             "coldpath": (None, ALL, "acct"),
             "select": (None, ALL, "acct"),
             "step": (None, ALL, "acct"),
-            "equality": (["Executor::handle_equal"], ALL),
+            "equality": (["Executor::handle_equal"], ALL, "acct"),
             "transfer": (None, ALL),
         },
         "kani": [],
@@ -94,7 +94,8 @@ PROPS = {
     "C13": {
         "title": "Equality is structural and construction-independent (the VM's comparator, function-level)",
         "units": {
-            "equality": (["Executor::canonical_tuple", "Executor::values_equal", "Executor::handle_equal"], ALL),
+            # the verdict and the stack effect (topic "sem"); handle_equal's balance conjuncts are C06's
+            "equality": (["Executor::canonical_tuple", "Executor::values_equal", "Executor::handle_equal"], ALL, "sem"),
             "rope": (None, ALL),
             "heap": (["Executor::get_constant", "Executor::retain", "Executor::release", "Executor::push_value", "Executor::pop_value"], ALL),
         },
